@@ -215,6 +215,9 @@ MUTANTS = [
     ('C10', 'poll-ignores-nval', (R, POLLERS, "select.POLLHUP | select.POLLERR | select.POLLNVAL", "select.POLLHUP | select.POLLERR"), 'C10.g'),
     ('C16', 'stat-oserror-only', (R, STATIC, "        if not os.path.exists(location):\n            return None\n\n        # Is it a file we can serve directly?\n        if os.path.isfile(location):", "        try:\n            mode = os.stat(location).st_mode\n        except OSError:\n            return None\n\n        # Is it a file we can serve directly?\n        if mode & 0o100000:"), 'C16.f'),
     ('C16', 'dedupe-by-containment', (R, UTILS, "            if (start, stop + 1) not in result:", "            if not any(first <= start and stop <= last for first, last in result):"), 'C16.g'),
+    ('C19', 'revert-failure-relay', ('revert', '6366462'), 'C19.e'),
+    ('C19', 'failure-relay-without-flag', (R, NODE_PROTOCOL, "            value.errors = True\n", ""), 'C19.e'),
+    ('C19', 'failure-relay-by-everyone', (R, NODE_PROTOCOL, "        if getattr(fevent, 'node_protocol', None) is not self:\n            return\n", ""), 'C19.e'),
 ]
 
 # behaviour-preserving edits: the check of the property must stay silent
